@@ -242,6 +242,11 @@ Definition c13_run (w : list Z) : list Z :=
       | 78 => match a with [lo; hi; n] => enc_bool (enclose_w 64 lo hi n) | _ => wire_error end
       | 79 => match a with [lo; hi; n] => enc_bool (enclose_w 8 lo hi n) | _ => wire_error end
       | 77 => zs (fun s => enc_r1 one (match n_unsigned 64 s with Ok v => Ok (wrap 64 v) | r => r end))
+      (* Range / RangeRight at uint64: a uint64 travels as the int64 with the same bits *)
+      | 46 => zs (fun l => enc_r1 (fun r => enc_zs (map (wrap 64) r))
+                               (range_u 64 range_cap (map (fun x => x mod 2 ^ 64) l)))
+      | 47 => zs (fun l => enc_r1 (fun r => enc_zs (map (wrap 64) r))
+                               (range_right_u 64 range_cap (map (fun x => x mod 2 ^ 64) l)))
       | _ => c13f_run fn a
       end
   | [] => wire_error
